@@ -618,12 +618,18 @@ def gen_vr(self, g):
     if not srcs:
         return None
     s = g.choice(srcs)
+    # a flattened tensor in the world: the transform that only applies to it gets its turn (it was reached in 1 run of
+    # 1000 otherwise, and seeded change C02-G was detected or not by a hair)
+    flat = [x for x in srcs if any(isinstance(e, (list, tuple)) for e in self.slots[x].shape)]
+    want_unflatten = bool(flat) and g.random() < 0.35
+    if want_unflatten:
+        s = g.choice(flat)
     dsts = [x for x in self.slots if x != s and not self.frozen(x)]
     if not dsts:
         return None
     dst = g.choice(dsts)
     sl = self.slots[s]
-    kind = g.choice(VR_KINDS)
+    kind = "unflatten" if want_unflatten else g.choice(VR_KINDS)
     nr = sl.depth
     a = {"src": s, "dst": dst, "kind": kind}
     d = g.randrange(nr)
